@@ -7,6 +7,7 @@ Inspired by TT-Toolbox from MATLAB.
 import torchtt
 import torch as tn
 from torchtt._decomposition import rank_chop, QR, SVD
+from torchtt.errors import *
 import datetime
 import opt_einsum as oe
 
@@ -229,6 +230,8 @@ def dmrg_hadamard(x, y, z0 = None, nswp = 20, eps = 1e-12, rmax = 32768, kickran
     Returns:
         TT: the result.
     """
+    if x.N != y.N:
+        raise ShapeMismatch('Shapes are incompatible: first operand is %s, second operand is %s.' % (str(x.N), str(y.N)))
     if False and _flag_use_cpp and use_cpp:
         return torchtt.TT(torchttcpp.dmrg_mv(A.cores, x.cores, [] if y0 is None else y0.cores, A.M, A.N, x.R, [] if y0 is None else y0.R, nswp, eps, rmax, kickrank, verb))
         #return dmrg_matvec_python(A, x, y0, nswp, eps, rmax, kickrank, verb)
